@@ -116,6 +116,8 @@ def structural(ctx, report):
     ga_loops = [n for n in walk_no_nested(stash_get_all.node) if isinstance(n, ast.For)]
     same = it.endswith("._collection") and len(ga_loops) == 1 and src(ga_loops[0].iter) == "self._collection"
     same2 = "get_captions(" in it or it.endswith("get_all()")
+    if it.endswith("._collection") and len(ga_loops) != 1:
+        raise AnalysisError("CaptionCreator.get_all: the loop over the stored captions is not spelled as one for statement")
     report.check(same or same2, "R-SAME-COLLECTION", (fn, lp), "the scan walks the collection the returned captions come from",
                  {"scan_iterates": it, "get_all_iterates": [src(l.iter) for l in ga_loops]}, "2")
     # comp: [line for line in TEXT.split("\n") if len(line) > 32]
